@@ -48,6 +48,21 @@ def nested(has, v):
     return d
 
 
+EXTRAS = [{}, {'GROUPING_PRMS': {'height_scale_range': [500, 100]}, 'EXCLUDE_FOR_BASE_HEIGHT_CALC': ['zz', 'a']},
+          {'MIN_SEP_LIMS': [10000], 'LAYERING_PRMS': {'gmm_kwargs': {'scores': 'AIC'}}, 'GROUPING_PRMS': {'height_scale_range': [300, 300]}},
+          {'LOWESS': {'frac': 0.5}, 'EXCLUDE_FOR_BASE_HEIGHT_CALC': []}]
+
+
+def overlay(ref, new):
+    """ the documented meaning of a nested partial assignment (driver-side oracle for the leaves outside the model) """
+    for k, v in new.items():
+        if isinstance(v, dict) and isinstance(ref.get(k), dict):
+            overlay(ref[k], v)
+        else:
+            ref[k] = v
+    return ref
+
+
 def tree_of(d):
     if d is None:
         return {'msa': 0, 'sep': [0, 0], 'thr': 0, 'mr': 0}
@@ -116,8 +131,14 @@ def params_walk(walk):
     defaults = dynamic.get_default_prms()
     dshape = key_shape(defaults)
     drest = rest_digest(defaults)
-    rows = [['a', -15.0 * i, 1000 + 10 * (i % 3), 1] for i in range(12)] + [['a', -15.0 * i, 2300, 2] for i in range(0, 12, 2)]
+    # two thick adjacent decks: two slices whose padded extents overlap, so that the bundle loop of the grouping step runs
+    rows = []
+    for i in range(36):
+        rows.append(['a', -15.0 * i, 1000 + (i * 37) % 230, 1])
+        rows.append(['a', -15.0 * i, 1260 + (i * 53) % 230, 2])
     frame = tracer.build_frame({'rows': rows})
+    snap_extras = {1: {}, 2: {}}
+    caller_extras = {1: {}, 2: {}}
     fdig = frame_digest(frame)
     chunks = {1: None, 2: None}
     ran = {1: False, 2: False}
@@ -166,8 +187,12 @@ def params_walk(walk):
                         ampycloud.reset_prms([{'msa': 'MSA', 'sep': 'MIN_SEP_VALS', 'slc': 'SLICING_PRMS'}[x] for x in has])
                     elif op == 'setcaller':
                         callers[u] = nested(has, v)
+                        # leaves outside the modelled paths, lists in an unusual order included (driver's choice, not an abstract action)
+                        caller_extras[u] = copy.deepcopy(EXTRAS[(k + len(walk['name'])) % len(EXTRAS)])
+                        overlay(callers[u], copy.deepcopy(caller_extras[u]))
                     elif op == 'construct':
                         chunks[c] = CeiloChunk(frame, prms=callers[u] if u else None)
+                        snap_extras[c] = copy.deepcopy(caller_extras[u]) if u else {}
                         ran[c] = False
                     elif op == 'run':
                         ch = chunks[c]
@@ -223,9 +248,10 @@ def params_walk(walk):
                 d = roots[r]
                 if d is None:
                     continue
+                exp = drest if r == 'G' else rest_digest(overlay(copy.deepcopy(defaults), copy.deepcopy(snap_extras[int(r[1])])))
                 if key_shape(d) != dshape:
                     extrakeys += 1
-                elif rest_digest(d) != drest:
+                elif rest_digest(d) != exp:
                     restdefault = False
             restsame = rest_digest(G) == rest_before['G'] and callers == callers_before if op in ('construct', 'run') else True
             events.append({'a': {'op': op, 'c': c, 'u': u, 'path': path, 'v': v, 'has': list(has)}, 'exc': exc,
